@@ -26,11 +26,11 @@ func init() {
 }
 
 const (
-	lvNONE = 0
-	lvWEAK = 1
+	lvNONE   = 0
+	lvWEAK   = 1
 	lvSTRONG = 2
-	lvAUTO = 3
-	lvLIN  = 4
+	lvAUTO   = 3
+	lvLIN    = 4
 )
 
 var lvName = map[int]string{0: "NONE", 1: "WEAK", 2: "STRONG", 3: "AUTO", 4: "LINEARIZABLE"}
